@@ -555,10 +555,17 @@ def _module_passes(tree: ast.Module) -> None:
 
     consts: Dict[str, List[ast.AST]] = {}
     ntuples: Dict[str, List[str]] = {}
+    mod_funcs = {st.name for st in tree.body if isinstance(st, (ast.FunctionDef, ast.AsyncFunctionDef))}
     for st in tree.body:
         if isinstance(st, ast.Assign) and len(st.targets) == 1 and isinstance(st.targets[0], ast.Name) and isinstance(st.value, (ast.Tuple, ast.List)) \
                 and st.value.elts and all(isinstance(e, ast.Constant) for e in st.value.elts):
             consts[st.targets[0].id] = list(st.value.elts)
+        # a module-level table of this module's own functions (tried / applied in order by a loop)
+        tgt_ = st.targets[0] if isinstance(st, ast.Assign) and len(st.targets) == 1 else (st.target if isinstance(st, ast.AnnAssign) else None)
+        val_ = getattr(st, "value", None)
+        if isinstance(tgt_, ast.Name) and isinstance(val_, (ast.Tuple, ast.List)) and val_.elts \
+                and all(isinstance(e, ast.Name) and e.id in mod_funcs for e in val_.elts):
+            consts[tgt_.id] = list(val_.elts)
         if isinstance(st, ast.ClassDef) and any(ast.unparse(b).split(".")[-1] == "NamedTuple" for b in st.bases):
             ntuples[st.name] = [b.target.id for b in st.body if isinstance(b, ast.AnnAssign) and isinstance(b.target, ast.Name)]
     rebound = {t.id for n in ast.walk(tree) if isinstance(n, (ast.Assign, ast.AugAssign, ast.AnnAssign)) and n not in tree.body
@@ -567,6 +574,17 @@ def _module_passes(tree: ast.Module) -> None:
     class _G(ast.NodeTransformer):
         def visit_Call(self, node: ast.Call):
             self.generic_visit(node)
+            # f(**{"a": x, "b": y})  is read as  f(a=x, b=y)
+            if any(k.arg is None and isinstance(k.value, ast.Dict) for k in node.keywords):
+                kws = []
+                for k in node.keywords:
+                    d = k.value
+                    if k.arg is None and isinstance(d, ast.Dict) and d.keys and all(
+                            isinstance(x, ast.Constant) and isinstance(x.value, str) and x.value.isidentifier() for x in d.keys):
+                        kws += [ast.keyword(arg=x.value, value=v) for x, v in zip(d.keys, d.values)]
+                    else:
+                        kws.append(k)
+                node.keywords = kws
             if isinstance(node.func, ast.Name) and node.func.id == "getattr" and len(node.args) == 2 and not node.keywords \
                     and isinstance(node.args[1], ast.Constant) and isinstance(node.args[1].value, str) and node.args[1].value.isidentifier():
                 return ast.copy_location(ast.Attribute(value=node.args[0], attr=node.args[1].value, ctx=ast.Load()), node)
